@@ -1523,6 +1523,10 @@ class Interp:
             return None
         segs = []
         for s in split_path(callee):
+            if s.startswith('<impl ') and ' for ' not in s:
+                # inherent impl written in another module:  ffi_serde::<impl interpreter::Value>::to_ffi_value
+                segs.append(type_head(strip_ref(s[6:-1].strip())))
+                continue
             k = s.find('<')
             segs.append(s[:k] if k >= 0 else s)
         segs = [s for s in segs if s]
